@@ -12,6 +12,20 @@ ROOT = os.path.dirname(os.path.dirname(os.path.abspath(__file__)))
 EVIDENCE_SCHEMA = "/root/.vp/EVIDENCE.schema.json"
 
 
+def validate_json(path, schema):
+    """Returns None if valid (or no validator available), else an error text."""
+    import shutil
+    import subprocess
+
+    vt = shutil.which("python3-vt") or "/opt/veriftools/pyvenv/bin/python"
+    if not os.path.exists(vt) or not os.path.exists(schema):
+        return None
+    r = subprocess.run([vt, os.path.join(ROOT, "tools", "validate.py"), path, schema], capture_output=True, text=True)
+    if r.returncode != 0:
+        return (r.stderr.strip().splitlines() or ["invalid"])[-1] + " | " + r.stderr[:200]
+    return None
+
+
 def jhash(obj) -> str:
     return hashlib.sha256(json.dumps(obj, sort_keys=True, default=repr, ensure_ascii=True).encode()).hexdigest()[:16]
 
@@ -167,20 +181,10 @@ class Run:
             json.dump(ev, f, indent=1, default=repr, ensure_ascii=True)
 
         rc = 1 if real else 0
-        # validate evidence
-        try:
-            import jsonschema
-
-            with open(EVIDENCE_SCHEMA) as f:
-                schema = json.load(f)
-            with open(epath) as f:
-                jsonschema.validate(json.load(f), schema)
-        except ImportError:
-            pass
-        except FileNotFoundError:
-            pass
-        except Exception as e:  # noqa: BLE001
-            self.internal_errors.append("evidence does not validate: %s" % str(e)[:300])
+        # validate evidence (jsonschema lives in the tooling venv, not in /venv)
+        err = validate_json(epath, EVIDENCE_SCHEMA)
+        if err:
+            self.internal_errors.append("evidence does not validate: %s" % err[:300])
 
         # vacuity self-check
         if self.evaluations > 50 and len(self.outcomes) <= 1 and not self.extra.get("vacuity_ok"):
